@@ -66,7 +66,9 @@ Definition parse_multiarch (i : str) : arch * str := multiarch_loop [] (adv i).
 Definition parse_operator (i : str) : outcome (str * str) :=
   let i := eat_ws i in
   let leader := peek i in let i := adv i in
-  if eqc leader 61 then Ok (s "=", i)
+  if eqc leader 61 then
+    (* "==", "=<" and "=>" are not operators *)
+    (if eqc (peek i) 61 || eqc (peek i) 60 || eqc (peek i) 62 then Err else Ok (s "=", i))
   else let secondary := peek i in let i := adv i in
        if eqc leader 0 || eqc secondary 0 then Err
        else if (eqc leader 62 && eqc secondary 61) || (eqc leader 60 && eqc secondary 61)
